@@ -37,15 +37,17 @@ def inplaceMethods : List String := [
 /-- copying methods that nevertheless write to `self` (the literal exclusion list of the table
     obligation; in one-to-one correspondence with the `known` `documented-copying|…|mutates-self` entries
     of `known_findings.d/C18.json`).  Empty since fix C18-02 (`Unit.simplify` builds a new unit). -/
-def knownMutatingCopies : List String := ["Unit.simplify"]
+def knownMutatingCopies : List String := []
 
 namespace Order
 
-/-- the unit is assigned FIRST, before the 1-byte refusal (finding; fix prepared: C18-01, C18-03) -/
+/-- with fixes C18-01 (the unit is assigned LAST) and C18-03 (a second refusal — read-only integer
+    buffer — before the re-typing) -/
 def convertToUnits : List String :=
   ["F:_sanitize_units_convert", "F:_check_em_conversion", "F:_em_conversion", "F:get_conversion_factor",
-   "W:self.units", "F:raise:ValueError", "F:astype", "W:values.dtype", "W:self.dtype",
-   "W:copyto(values)", "W:values*=", "W:np.subtract(out=values)", "C:self.convert_to_equivalent"]
+   "F:raise:ValueError", "F:raise:ValueError", "F:astype", "W:values.dtype", "W:self.dtype",
+   "W:copyto(values)", "W:values*=", "W:np.subtract(out=values)", "W:self.units",
+   "C:self.convert_to_equivalent"]
 
 def convertToBase : List String := ["F:get_base_equivalent", "C:self.convert_to_units"]
 def convertToCgs : List String := ["F:get_cgs_equivalent", "C:self.convert_to_units"]
@@ -70,9 +72,11 @@ def inBase : List String :=
 
 def setitem : List String := ["F:to", "W:super().__setitem__"]
 
-def unitSimplify : List String := ["F:_cancel_mul", "W:self.expr"]
+/-- with fix C18-02: no write to `self` -/
+def unitSimplify : List String := ["F:_cancel_mul", "F:Unit"]
 
-/-- `__array_ufunc__` seen from `out=` (array.py:1798-2048): the integer `out` is re-typed first;
+/-- `__array_ufunc__` seen from `out=` (array.py:1798-2048): a read-only integer `out` is refused (fix
+    C18-03), then the integer `out` is re-typed;
     unary path: kernel, then the unit rule; binary path: coercion, the `power` refusals, the K/R
     refusal, the `==`/`!=` early return (which writes `out`), the dimension refusals, the
     second-operand conversion, the unit rule, the kernel, the dimensionless rescale, the
@@ -81,7 +85,7 @@ def unitSimplify : List String := ["F:_cancel_mul", "W:self.expr"]
     `multiply(out_func, mul, out=out_func)` (since fix db741b8; before: `multiply(out, mul, out=out)`,
     a nested `__array_ufunc__` call); the unit label -/
 def arrayUfunc : List String :=
-  ["F:astype", "W:out.dtype", "W:copyto(out)",
+  ["F:raise:ValueError", "F:astype", "W:out.dtype", "W:copyto(out)",
    "F:in_units", "W:func(out=out_func)", "F:_apply_power_mapping", "F:_ufunc_registry[]",
    "F:_coerce_iterable_units", "F:_coerce_iterable_units", "F:_get_binary_op_return_class",
    "F:Unit", "F:Unit",
@@ -99,11 +103,11 @@ end Order
 
 /-- the post-multiplication works on the raw buffer: it does not re-enter `__array_ufunc__` -/
 def fixupReenters : Bool := false
-/-- fixes C18-01 / C18-03 / C18-02 are NOT in the source -/
-def ctuUnitsLast : Bool := false
-def ctuReadonlyGuard : Bool := false
-def outReadonlyGuard : Bool := false
-def simplifyCopies : Bool := false
+/-- fixes C18-01 / C18-03 / C18-02 are in the source -/
+def ctuUnitsLast : Bool := true
+def ctuReadonlyGuard : Bool := true
+def outReadonlyGuard : Bool := true
+def simplifyCopies : Bool := true
 
 /-- every `out=` of an equivalence's `_convert` goes through `_get_out`, … -/
 def equivalenceOutExpr : String := "self._get_out(x)"
